@@ -77,17 +77,17 @@ from falcon.util.misc import code_to_http_status
 # reference via module global is faster than going via self
 _BODILESS_STATUS_CODES = frozenset(
     [
-        status.HTTP_100,
-        status.HTTP_101,
-        status.HTTP_204,
-        status.HTTP_304,
+        '100',
+        '101',
+        '204',
+        '304',
     ]
 )
 
 _TYPELESS_STATUS_CODES = frozenset(
     [
-        status.HTTP_204,
-        status.HTTP_304,
+        '204',
+        '304',
     ]
 )
 _BE = TypeVar('_BE', bound=BaseException)
@@ -475,7 +475,11 @@ class App:
         resp_status: str = code_to_http_status(resp.status)
         default_media_type: Optional[str] = self.resp_options.default_media_type
 
-        if req.method == 'HEAD' or resp_status in _BODILESS_STATUS_CODES:
+        # NOTE: what makes a response bodiless is its status code, not the
+        #   reason phrase that the app may have chosen for the status line.
+        resp_status_code = resp_status[:3]
+
+        if req.method == 'HEAD' or resp_status_code in _BODILESS_STATUS_CODES:
             body = []
 
             # PERF(vytas): move check for the less common and much faster path
@@ -486,12 +490,12 @@ class App:
             # RFC 2616, as commented in that module's source code. The
             # presence of the Content-Length header is not similarly
             # enforced.
-            if resp_status in _TYPELESS_STATUS_CODES:
+            if resp_status_code in _TYPELESS_STATUS_CODES:
                 default_media_type = None
             elif (
                 length is not None
                 and req.method == 'HEAD'
-                and resp_status not in _BODILESS_STATUS_CODES
+                and resp_status_code not in _BODILESS_STATUS_CODES
                 and 'content-length' not in resp._headers
             ):
                 # NOTE(kgriffs): We really should be returning a Content-Length
